@@ -97,15 +97,31 @@ class Pair:
         real_req = Transport._channel_handler_table[98]
         self.swallowed = 0
 
+        self.seen98 = 0
+
         def on_request(chan, m):
-            if self.manual:
-                with self.cv:
+            manual = self.manual
+            with self.cv:
+                self.seen98 += 1
+                if manual:
                     self.swallowed += 1
-                    self.cv.notify_all()
-                return None
-            return real_req(chan, m)
+                self.cv.notify_all()
+            return None if manual else real_req(chan, m)
 
         ts._channel_handler_table[98] = on_request
+        # global requests of the client are never answered by the server transport: the harness records them
+        # (kind, want_reply as found ON THE WIRE) and answers those that asked for a reply by hand, in order
+        self.greqs = []
+        self.pending = []     # reply codes owed to earlier requests that asked for a reply but were not waited for
+
+        def on_global(m):
+            kind = m.get_text()
+            want = m.get_boolean()
+            with self.cv:
+                self.greqs.append((kind, want))
+                self.cv.notify_all()
+
+        ts._handler_table[80] = on_global
         for t in (81, 82, 91, 92):
             self._orig = ts._handler_table.get(t)
         self._swallow = {t: ts._handler_table[t] for t in (91, 92)}
@@ -162,6 +178,7 @@ class Pair:
         ch = self.session()
         cid = ch.get_id()
         out = {}
+        self.settle_requests()      # earlier (un-answered) channel requests must have reached the server first
         n0 = len(self.sent)
         sw0 = self.swallowed
         self.manual = True
@@ -206,6 +223,46 @@ class Pair:
             self.manual = False
         return out["r"]
 
+    def answered_global(self, call, granted, success_payload=b""):
+        """run a blocking client call that makes a global request and answer it by hand: first whatever is still owed
+        to earlier requests that asked for a reply (in order, as a server would), then this request's own verdict"""
+        import threading as th
+
+        out = {}
+        n0 = len(self.greqs)
+
+        def run():
+            try:
+                out["v"] = call()
+                out["r"] = "ok"
+            except Exception as e:
+                out["r"] = "denied"
+                out["exc"] = type(e).__name__
+
+        t = th.Thread(target=run, daemon=True)
+        t.start()
+        with self.cv:
+            ok = self.cv.wait_for(lambda: len(self.greqs) > n0 or "r" in out, WAIT)
+        if not ok:
+            raise InfraError("C18: the client did not send its global request")
+        if len(self.greqs) > n0:
+            owed, self.pending = self.pending, []
+            for code in owed:
+                self.push(code, b"")
+            if self.greqs[-1][1]:
+                self.push(81, success_payload) if granted else self.push(82, b"")
+        t.join(WAIT)
+        if t.is_alive():
+            raise InfraError("C18: the client's global request did not return")
+        return out["r"], out.get("v")
+
+    def settle_requests(self):
+        """wait until the server transport has consumed every CHANNEL_REQUEST the client has sent so far"""
+        with self.cv:
+            sent98 = sum(1 for m in self.sent if m[:1] == b"\x62")
+            if not self.cv.wait_for(lambda: self.seen98 >= sent98 or not self.ts.active, WAIT):
+                raise InfraError("C18: a channel request of the client never reached the server")
+
     # -- client actions
     def action(self, a):
         from paramiko.ssh_exception import SSHException
@@ -219,12 +276,30 @@ class Pair:
                 return self.answered_request(lambda ch: ch.get_pty(), ans)
             elif a == "agent":
                 self.session().request_forward_agent(None)
+                self.settle_requests()
+            elif a.startswith("nowait:"):
+                # an un-waited global request (what set_keepalive sends); the digit is what the server WOULD answer
+                # if the request asked for a reply
+                n0 = len(self.greqs)
+                self.tc.global_request("keepalive@lag.net", wait=False)
+                with self.cv:
+                    if not self.cv.wait_for(lambda: len(self.greqs) > n0 or not self.ts.active, WAIT):
+                        raise InfraError("C18: the un-waited global request never reached the server")
+                if len(self.greqs) > n0:
+                    self.unwaited_want_reply = self.greqs[-1][1]
+                    if self.greqs[-1][1]:
+                        self.pending.append(81 if a.endswith("1") else 82)
             elif a.startswith("fwd:") or a.startswith("fwdz:"):
-                self.grant = a.endswith("1")
+                zero = a.startswith("fwdz:")
                 # fwdz: ask for port 0 and let the server allocate; a later cancel names the port that came back
-                self.port = self.tc.request_port_forward("127.0.0.1", 0 if a.startswith("fwdz:") else 4022)
+                r, v = self.answered_global(lambda: self.tc.request_port_forward("127.0.0.1", 0 if zero else 4022),
+                                            a.endswith("1"), S(4022) if zero else b"")
+                if r == "ok":
+                    self.port = v
+                return r
             elif a == "cancel":
-                self.tc.cancel_port_forward("127.0.0.1", getattr(self, "port", 4022))
+                self.answered_global(lambda: self.tc.cancel_port_forward("127.0.0.1", getattr(self, "port", 4022)),
+                                     True)
             else:
                 raise ValueError(a)
             return "ok"
